@@ -250,7 +250,8 @@ class ValueOps:
                 nd = a.ndim - 1
             else:
                 nd = max(a.ndim, b.ndim)
-        return AV(['arr'] if nd else ['arr', 'num'], ndim=nd)
+        big = (a.ndim is not None and a.ndim >= 2 and a.only('arr')) or (b.ndim is not None and b.ndim >= 2 and b.only('arr'))
+        return AV(['arr'] if (nd or big) else ['arr', 'num'], ndim=nd)
 
     # ---- effects on values
     def write_buf(self, av, node, text, soft=False):
